@@ -99,6 +99,16 @@ func genC13(t *rapid.T) any {
 	var sharedSc *c07Schema
 	if b.Shared {
 		sharedDoc, sharedSc = genC07Doc(t)
+		// an array of arrays for multi-dimensional selectors on the shared document
+		var mx []any
+		for r, nr := 0, rapid.IntRange(2, 4).Draw(t, "mx.rows"); r < nr; r++ {
+			var line []any
+			for e, ne := 0, rapid.IntRange(1, 5).Draw(t, fmt.Sprintf("mx.r%d.n", r)); e < ne; e++ {
+				line = append(line, float64(r*10+e))
+			}
+			mx = append(mx, line)
+		}
+		sharedDoc["mx"] = mx
 	}
 	if b.Scenario == "own-constants" {
 		// every goroutine filters a table of its own (20-60 rows) with constants of its own - LIKE patterns, IN
@@ -269,6 +279,30 @@ func genC13(t *rapid.T) any {
 					steps = append(steps, selref.Step{K: "key", Key: map[string]string{"t": sc.k, "t2": sc.t2c}[tbl]})
 				}
 				q.Ref = &selref.Selector{Parts: []selref.Part{{Steps: steps}}}
+				q.SQL = q.Ref.String()
+			}
+			if b.Shared && rapid.IntRange(0, 3).Draw(t, "mxsel") == 0 {
+				// multi-dimensional selectors over the shared array of arrays, judged by the reference: what one reader
+				// flattens or cuts out must not show in what the others read
+				dim := func(l string) selref.Dim {
+					switch rapid.IntRange(0, 4).Draw(t, l) {
+					case 0:
+						return selref.Dim{K: "each"}
+					case 1:
+						return selref.Dim{K: "i", I: 0}
+					case 2:
+						return selref.Dim{K: "range", From: 0, To: 1}
+					case 3:
+						return selref.Dim{K: "range", From: -1, To: 1}
+					}
+					return selref.Dim{K: "range", From: 0, To: -1}
+				}
+				st := selref.Step{K: "idx", Dims: []selref.Dim{dim("mxsel.d0")}, Keep: rapid.IntRange(0, 4).Draw(t, "mxsel.keep") == 0}
+				if rapid.IntRange(0, 3).Draw(t, "mxsel.two") != 0 {
+					st.Dims = append(st.Dims, dim("mxsel.d1"))
+				}
+				q.Selector, q.PG, q.Arrays = true, false, false
+				q.Ref = &selref.Selector{Parts: []selref.Part{{Steps: []selref.Step{{K: "key", Key: "mx"}, st}}}}
 				q.SQL = q.Ref.String()
 			}
 			if !q.Selector && !w.Wrapped && rapid.IntRange(0, 4).Draw(t, "chained") == 0 {
@@ -667,7 +701,7 @@ func init() {
 			"constructs (or path selectors; a third of the queries built with PostgresEscapingDialect / IdiomaticArrays, and now and then a text the rewriters reject next to them), released together by a barrier, each list repeated 1-3 times, GOMAXPROCS in {1,2,4,16}; scenarios: separate " +
 			"documents with selector texts never seen before in the process (column names carry a per-batch nonce), separate documents with warm " +
 			"selectors, one shared document read by all goroutines (fresh or warm names), internal parallelism (PARALLEL / HASH joins, ASYNC and " +
-			"SPINASYNC calls) inside concurrent queries, concurrent ExecReader calls, all goroutines building and running the same query texts (WITH + UNION, CTEs, joins, subqueries) at once, and function-side-effects: ASYNC / SPINASYNC calls in top-level, derived-table, CTE, scalar-subquery, inner-array and join-operand positions that write one unsynchronised cell per invocation, read by the caller right after Exec (an unset cell is a mismatch with the solo run, and a data race in this build), and built-in-functions: the library's own functions (HASH with each digest, ENCODE / DECODE with each base, CONCAT, CHANGETYPE, ARRAY / UNWIND / FIRST / LAST / ELEMENTAT, IF, TO_UPPER / TO_LOWER, nested in one another) as select items, a third of them under ASYNC, at the top level or in a derived table / CTE / WHERE clause / scalar sub query, over tables of 1-12 rows with strings of a few bytes to a few kilobytes, on separate documents or one shared document. Oracle: no race report, no fatal error, no confirmed hang; every " +
+			"SPINASYNC calls) inside concurrent queries, concurrent ExecReader calls (also multi-dimensional selectors over an array of arrays of the shared document, judged by the reference), all goroutines building and running the same query texts (WITH + UNION, CTEs, joins, subqueries) at once, and function-side-effects: ASYNC / SPINASYNC calls in top-level, derived-table, CTE, scalar-subquery, inner-array and join-operand positions that write one unsynchronised cell per invocation, read by the caller right after Exec (an unset cell is a mismatch with the solo run, and a data race in this build), and built-in-functions: the library's own functions (HASH with each digest, ENCODE / DECODE with each base, CONCAT, CHANGETYPE, ARRAY / UNWIND / FIRST / LAST / ELEMENTAT, IF, TO_UPPER / TO_LOWER, nested in one another) as select items, a third of them under ASYNC, at the top level or in a derived table / CTE / WHERE clause / scalar sub query, over tables of 1-12 rows with strings of a few bytes to a few kilobytes, on separate documents or one shared document. Oracle: no race report, no fatal error, no confirmed hang; every " +
 			"result equals the result of the same query run alone afterwards on a private copy (multiset where order is open); a shared document is " +
 			"unchanged. Non-trivial: every batch (>=2 goroutines overlap by construction of the barrier).",
 		Assumptions: []string{
